@@ -1,6 +1,9 @@
 package main
 
-import "fmt"
+import (
+	"fmt"
+	"os"
+)
 
 func init() { checks["C18"] = checkC18 }
 
@@ -10,6 +13,9 @@ func checkC18(rep *Report, rng *Rng, tier string) {
 	run := func(ops []Op, file bool, what string) bool {
 		d := CfgDesc{Check: "C18", FileBacked: file, DumpEvery: true}
 		_, obs, m := RunOps(d.RunCfg(), ops)
+		if os.Getenv("DBG18") != "" {
+			fmt.Println(what, len(ops), len(obs), m)
+		}
 		evals++
 		rep.Evaluations++
 		rep.CountOps(ops)
@@ -86,7 +92,8 @@ func checkC18(rep *Report, rng *Rng, tier string) {
 				ops = append(ops, Op{K: "itx", Name: "c", Key: tgt, Val: []byte(sc), WV: (si+fi)%2 == 0})
 				if si%4 == 3 {
 					// a following mutation must proceed (and reclaim)
-					ops = append(ops, Op{K: "set", Name: "c", Key: []byte("zz-after"), Val: []byte{byte(si)}, Prio: int32(si)})
+					ops = append(ops, Op{K: "set", Name: "c", Key: []byte("zz-after"), Val: []byte{byte(si)}, Prio: int32(si)},
+						Op{K: "del", Name: "c", Key: []byte("zz-after")})
 				}
 			}
 			if run(ops, file, fmt.Sprintf("iterator scripts n=%d file=%v", n, file)) {
